@@ -7,8 +7,8 @@ ACTIONS = ["Init"]
 
 META = {
     "category": "model_checking",
-    "text": "Equality, RFC 4034 6.1 order, composed orders and hash keys of labels, names, character strings, the canonical order of record data (octet order of the canonical wire form given by the Rdata.tla layout table) and of records are operators of Order.tla. TLC checks on an enumerated space (110 labels over the octets around both letter ranges, 166/421 names of up to 3 labels incl. the a.b / a\\.b pair, per-type record data differing in one field, a record grid) that they are total orders coherent with ==, case-insensitive, that hash keys respect ==, that the RFC 4034 example list is sorted, and transitivity over triples. Every enumerated pair is replayed into the real library in every representation (Name<Vec>, Name<Bytes>, ParsedName uncompressed, compressed (labels+pointer, pointer chains, pointer->labels->pointer) and derived from longer names by split_first / parent / iter_suffixes, Chain at three split points, &Name<[u8]>, RelativeName over Vec/slice/Bytes, UncertainName, four case variants; Label and OwnedLabel incl. Borrow<Label> hash agreement and HashMap<OwnedLabel,_> lookup by &Label; CharStr over Vec/slice/Bytes; AllRecordData and ZoneRecordData; Record parsed and flattened, RecordHeader, ParsedRecord, Question) comparing ==, partial_cmp, cmp, name_cmp, canonical_cmp, composed_cmp, lowercase_composed_cmp and hash equality under a fixed hasher; recorded random pairs (names up to 255 octets, record data of all types) are validated by TLC. Representation independence is a law of the specification: Order.tla has carrier terms (flat Name over Vec/Bytes/Array/slice, ParsedName with any set of compression-pointer positions and pointer-only hops, Chain<Rel,Abs>, Chain<Rel,Chain<Rel,Abs>>, Chain<Chain<Rel,Rel>,Abs>, Chain<UncertainName,Abs> relative and absolute, chain_root, &T, &&T), their denotation, and compose / compose_canonical / compose_len written part by part as the implementation does; TLC checks CarrierLaw (they are functions of the denoted name only, canonical = lower-cased compose, also for record data and whole records whose names sit in carriers) and that two model mutants break it. Generated (name, carrier) cases, carrier pairs, record data of all 21 types with a name field and records over carriers are replayed into the real library (24 carrier shapes built as 21 static types, 8 relative ones): compose, to_name / to_vec / to_bytes / to_cow / try_to_name<Array> / flatten_into / as_flat_slice, compose_canonical / to_canonical_name, compose_len, iter_labels from both ends, rrsig_label_count, is_root, hash, name_eq / name_cmp / composed_cmp / lowercase_composed_cmp against the flat name in three spellings and between carriers, compose_rdata / compose_canonical_rdata / the *_len_* forms / rdlen / typed == and canonical_cmp of AllRecordData and ZoneRecordData over carriers, Record::compose / compose_canonical / canonical_cmp and RecordHeader::compose_canonical with a carried owner, all against expectations computed from the denoted name alone; recorded random carriers (names up to 255 octets, random cuts and renderings) are validated by TLC.",
-    "note": "Trusted: TLC, Order.tla / Names.tla / Rdata.tla, the harness. Not pinned (only coherence laws demanded): Ord of character strings, record data and records; == of record data whose character strings differ only in case; whether == of records looks at the TTL; canonical order of records of different class, or of the same owner and different type. Transitivity of the implementation's orders follows from agreement with the (TLC-checked) specification order on the enumerated set for pinned orders only; for unpinned orders only antisymmetry and eq<=>cmp=Equal are checked pairwise. Carriers: the shapes are static Rust types chosen by the harness (a Chain deeper than two levels, SmallVec / heapless octets are not among them); Chain implements neither ==, Hash nor CanonicalOrd, so record data over a Chain is compared through the per-type impls and records with a chained owner have no ==; the names inside the data of a record go through six of the shapes.",
+    "text": "Equality, RFC 4034 6.1 order, composed orders and hash keys of labels, names, character strings, the canonical order of record data (octet order of the canonical wire form given by the Rdata.tla layout table) and of records are operators of Order.tla. TLC checks on an enumerated space (110 labels over the octets around both letter ranges, 166/421 names of up to 3 labels incl. the a.b / a\\.b pair, per-type record data differing in one field, a record grid) that they are total orders coherent with ==, case-insensitive, that hash keys respect ==, that the RFC 4034 example list is sorted, and transitivity over triples. Every enumerated pair is replayed into the real library in every representation (Name<Vec>, Name<Bytes>, ParsedName uncompressed, compressed (labels+pointer, pointer chains, pointer->labels->pointer) and derived from longer names by split_first / parent / iter_suffixes, Chain at three split points, &Name<[u8]>, RelativeName over Vec/slice/Bytes, UncertainName, four case variants; Label and OwnedLabel incl. Borrow<Label> hash agreement and HashMap<OwnedLabel,_> lookup by &Label; CharStr over Vec/slice/Bytes; AllRecordData and ZoneRecordData; Record parsed and flattened, RecordHeader, ParsedRecord, Question) comparing ==, partial_cmp, cmp, name_cmp, canonical_cmp, composed_cmp, lowercase_composed_cmp and hash equality under a fixed hasher; recorded random pairs (names up to 255 octets, record data of all types) are validated by TLC. Representation independence is a law of the specification: Order.tla has carrier terms (flat Name over Vec/Bytes/Array/slice, ParsedName with any set of compression-pointer positions and pointer-only hops, Chain<Rel,Abs>, Chain<Rel,Chain<Rel,Abs>>, Chain<Chain<Rel,Rel>,Abs>, Chain<UncertainName,Abs> relative and absolute, chain_root, &T, &&T), their denotation, and compose / compose_canonical / compose_len written part by part as the implementation does; TLC checks CarrierLaw (they are functions of the denoted name only, canonical = lower-cased compose, also for record data and whole records whose names sit in carriers) and that two model mutants break it. Generated (name, carrier) cases, carrier pairs, record data of all 21 types with a name field and records over carriers are replayed into the real library (24 carrier shapes built as 21 static types, 8 relative ones): compose, to_name / to_vec / to_bytes / to_cow / try_to_name<Array> / flatten_into / as_flat_slice, compose_canonical / to_canonical_name, compose_len, iter_labels from both ends, rrsig_label_count, is_root, hash, name_eq / name_cmp / composed_cmp / lowercase_composed_cmp against the flat name in three spellings and between carriers, compose_rdata / compose_canonical_rdata / the *_len_* forms / rdlen / typed == and canonical_cmp of AllRecordData and ZoneRecordData over carriers, Record::compose / compose_canonical / canonical_cmp and RecordHeader::compose_canonical with a carried owner, all against expectations computed from the denoted name alone; recorded random carriers (names up to 255 octets, random cuts and renderings) are validated by TLC. Representations of record data are terms of the specification too (DataReps: AllRecordData, ZoneRecordData, UnknownRecordData, and a RecordData implemented outside the library whose canonical_cmp answers any sign for two values of different types, as the RFC 4034 6.3 contract allows): Record::canonical_cmp is written step by step (class, owner, type, then the data's answer; RecCanonVia) and TLC checks RecRepLaw -- it is the pinned owner -> type -> RDATA order whatever the data type answers across types, antisymmetric, Equal only for == records -- and that a model mutant without the type step breaks it. Generated record pairs x representation x cross-type answer are replayed with owner, names and octets held differently on the two sides (parsed in a message / Vec / Bytes / owner and data mixed: 25 pairings of Record<N, AllRecordData<O, N>>, 16 of ZoneRecordData, 16 of UnknownRecordData, 9 of the outside type) through the two-parameter ==, partial_cmp, canonical_cmp (both directions) and hash; recorded random record pairs in random representations are validated by TLC.",
+    "note": "Trusted: TLC, Order.tla / Names.tla / Rdata.tla, the harness. Not pinned (only coherence laws demanded): Ord of character strings, record data and records; == of record data whose character strings differ only in case; whether == of records looks at the TTL; canonical order of records of different class. Transitivity of the implementation's orders follows from agreement with the (TLC-checked) specification order on the enumerated set for pinned orders only; for unpinned orders only antisymmetry and eq<=>cmp=Equal are checked pairwise. Carriers: the shapes are static Rust types chosen by the harness (a Chain deeper than two levels, SmallVec / heapless octets are not among them); Chain implements neither ==, Hash nor CanonicalOrd, so record data over a Chain is compared through the per-type impls and records with a chained owner have no ==; the names inside the data of a record go through six of the shapes.",
     "technique": "TLA+ operators (Order.tla) + TLC laws over an enumerated space; spec->impl case replay; impl->spec trace validation",
     "design_ref": "DESIGN.md §4 C04",
 }
@@ -38,7 +38,10 @@ def run(ctx):
     # vacuity guard for the carrier laws: a model in which a chain composes its
     # right part as is in the canonical form (resp. an absolute uncertain name
     # still counts its origin) must break them
-    muts = [("MC_Order_mut", "LawCarrier")]
+    # ... and one in which Record::canonical_cmp leaves the type step to its
+    # record data must break LawRecRep (a data type outside the library need
+    # not order by type)
+    muts = [("MC_Order_mut", "LawCarrier"), ("MC_Order_mut4", "LawRecRep")]
     if thorough:
         muts += [("MC_Order_mut2", "LawCarriedRec"), ("MC_Order_mut3", "LawCarrier")]
     for cfg, inv in muts:
@@ -55,7 +58,7 @@ def run(ctx):
             k = line[i + 8:line.find('"', i + 8)] if i >= 0 else "?"
             kinds[k] = kinds.get(k, 0) + 1
     ctx.stage("case-kinds", kinds)
-    for k in ("label", "name", "charstr", "rdata", "record", "carrier", "rcarrier", "cpair", "crdata", "crecord"):
+    for k in ("label", "name", "charstr", "rdata", "record", "xrecord", "carrier", "rcarrier", "cpair", "crdata", "crecord"):
         if kinds.get(k, 0) < 300:
             raise vlib.ToolError("generator produced too few %s cases (%d)" % (k, kinds.get(k, 0)))
     head = os.path.join(ctx.work, "head.ndjson")
@@ -103,8 +106,8 @@ def run(ctx):
             for l in lines:
                 k = json.loads(l).get("ev")
                 evs[k] = evs.get(k, 0) + 1
-            for k in ("carrier", "rcarrier", "cpair", "crdata", "crecord"):
-                if evs.get(k, 0) < 50:
+            for k in ("carrier", "rcarrier", "cpair", "crdata", "crecord", "xrecord"):
+                if evs.get(k, 0) < (50 if k != "xrecord" else 25):
                     raise vlib.ToolError("recorder produced too few %s events (%d)" % (k, evs.get(k, 0)))
     ctx.assume("orders the property does not pin (Ord of char strings / record data / records) are only checked for coherence with ==")
     ctx.assume("hash equality is checked under std's DefaultHasher with fixed keys")
